@@ -1,67 +1,43 @@
-(* C11 property theorems (statements only; proofs in Proofs.v).  [result s] is what
-   Network.create_peer_connection does under script s (Model.v); select_port and the timeouts come from
-   SlskGen.PortGen, regenerated from network.py / constants.py on every run.
-   Scripts with two things at the same instant are outside the model (ties are resolved by the loop's FIFO). *)
+(* C11 property theorems, phase 2: the FULL statements about the repaired code (repairs F15, F15b, F16, F26,
+   C11-N1, C11-N2, C11-N3).  Statements only; proofs in Proofs.v.  [result s] is what
+   Network.create_peer_connection does under script s (Model.v); select_port, the timeouts and the presence of the
+   clean-up constructs come from SlskGen.PortGen, regenerated from network.py / connection.py / constants.py on
+   every run: if a construct disappears from the source the corresponding theorem stops being provable. *)
 From Slsk Require Import Base.Tac.
 From SlskGen Require Import PortGen.
 From Slsk Require Import C11.Model C11.Proofs.
 Open Scope Z_scope.
 
-(* returns a connection iff the direct or the indirect path works -- in race mode always, in fallback mode only
-   when the address lookup ends (it has no timeout today: finding F26) *)
-Theorem C11_success_iff_partial : forall s,
-  cancel s = None -> (md s = Race \/ lookup_ends s) ->
-  (returns (result s) = true <-> direct_ok s = true \/ indirect_ok s = true).
-Proof. exact success_iff_partial. Qed.
+(* a connection is returned iff the direct or the indirect path works: both modes, every timing, every tie schedule *)
+Theorem C11_success_iff : forall s,
+  cancel s = None -> (returns (result s) = true <-> direct_ok s = true \/ indirect_ok s = true).
+Proof. exact success_iff. Qed.
 
-Theorem C11_success_iff_refuted :
-  exists s, cancel s = None /\ delays_ok s /\ indirect_ok s = true /\ returns (result s) = false.
-Proof. exact success_iff_refuted. Qed.
+(* the returned connection is the one of a path that worked; when both attempts finish in the same loop iteration
+   either may be returned (then both paths work) and the other one is disconnected (C11_residue_free) *)
+Theorem C11_type_and_init : forall s,
+  cancel s = None ->
+  (forall w, out (result s) = ORet w -> either (result s) = false ->
+     match w with WDirect => direct_ok s = true | WIndirect => indirect_ok s = true end) /\
+  (either (result s) = true -> direct_ok s = true /\ indirect_ok s = true).
+Proof. intros s Hc. split; [intros w; now apply returned_kind|now apply returned_either]. Qed.
 
-(* the returned connection is the one of a path that worked (direct: outgoing, PeerInit sent; indirect: the
-   accepted connection whose PeerPierceFirewall carried our ticket) *)
-Theorem C11_type_and_init : forall s w,
-  cancel s = None -> out (result s) = ORet w ->
-  match w with WDirect => direct_ok s = true | WIndirect => indirect_ok s = true end.
-Proof. exact returned_kind. Qed.
+(* nothing is left behind -- whether the request returns, raises or is cancelled at any moment, in both modes:
+   no non-returned connection in the registry (CONNECTING or open), no ticket / CannotConnect waiter, no attempt task *)
+Theorem C11_residue_free : forall s, residue_free (result s) = true.
+Proof. exact residue_free_all. Qed.
 
-Theorem C11_residue_free_partial : forall s,
-  md s = Fallback -> cancel s = None -> ir s <> ISendFail -> residue_free (result s) = true.
-Proof. exact residue_free_partial. Qed.
-
-Theorem C11_residue_free_refuted :
-  exists s, cancel s = None /\ delays_ok s /\ returns (result s) = true /\ waiters (result s) = true.
-Proof. exact residue_free_refuted. Qed.
-
-Theorem C11_residue_free_refuted_connecting :
-  exists s, cancel s = None /\ delays_ok s /\ returns (result s) = true /\ r_connecting (result s) = true.
-Proof. exact residue_free_refuted_connecting. Qed.
-
-Theorem C11_residue_free_refuted_cancel :
-  exists s x, cancel s = Some x /\ out (result s) = OCancelled /\ waiters (result s) = true.
-Proof. exact residue_free_refuted_cancel. Qed.
-
-Theorem C11_residue_free_refuted_cancel_race :
-  exists s x, md s = Race /\ cancel s = Some x /\ out (result s) = OCancelled /\ orphans (result s) = true.
-Proof. exact residue_free_refuted_cancel_race. Qed.
-
-Theorem C11_no_orphans_without_cancel : forall s, cancel s = None -> orphans (result s) = false.
-Proof. exact no_orphans_without_cancel. Qed.
-
-Theorem C11_terminates_partial : forall s,
-  cancel s = None -> lookup_ends s -> delays_ok s ->
+(* the request ends within lookup delay + lookup timeout + connect timeout + indirect timeout *)
+Theorem C11_terminates : forall s,
+  cancel s = None -> delays_ok s ->
   out (result s) <> OHang /\
   exists t, at_time (result s) = Some t /\
-            t <= ad_delay s + Z.max LOOKUP_TIMEOUT 0 + PEER_CONNECT_TIMEOUT + PEER_INDIRECT_CONNECT_TIMEOUT.
-Proof. exact terminates_partial. Qed.
+            t <= ad_delay s + LOOKUP_TIMEOUT + PEER_CONNECT_TIMEOUT + PEER_INDIRECT_CONNECT_TIMEOUT.
+Proof. exact terminates. Qed.
 
-Theorem C11_terminates_refuted :
-  exists s, cancel s = None /\ delays_ok s /\ out (result s) = OHang.
-Proof. exact terminates_refuted. Qed.
-
-Theorem C11_terminates_refuted_race :
-  exists s, md s = Race /\ cancel s = None /\ delays_ok s /\ out (result s) = OHang.
-Proof. exact terminates_refuted_race. Qed.
+Theorem C11_cancel_is_prompt : forall s x,
+  cancel s = Some x -> out (result s) = OCancelled -> at_time (result s) = Some x.
+Proof. exact cancel_is_prompt. Qed.
 
 Theorem C11_select_port_spec : forall pref p o,
   let '(q, obf) := select_port pref p o in
@@ -70,15 +46,26 @@ Theorem C11_select_port_spec : forall pref p o,
   (p <> 0 -> o <> 0 -> obf = pref).
 Proof. exact select_port_spec. Qed.
 
-(* responder: with an open server connection the peer gets a pierce or the server gets CannotConnect *)
+(* responder: with an open server connection the peer gets a pierce or the server gets CannotConnect -- also when the
+   connect succeeded and the PeerPierceFirewall write failed *)
 Theorem C11_responder : forall c w,
   (responder true c w = PierceSent \/ responder true c w = CannotConnectReported) /\
-  (forall so, responder so c w = PierceSent <-> (c = RcOk /\ w = RsOk)).
-Proof. intros c w. split; [apply responder_spec|intros; apply responder_pierce_iff]. Qed.
+  (forall so, responder so c w = PierceSent <-> (c = RcOk /\ w = RsOk)) /\
+  responder true RcOk RsFail = CannotConnectReported.
+Proof. intros c w. split; [apply responder_spec|split; [intros; apply responder_pierce_iff|apply responder_write_failure]]. Qed.
 
 Example C11_nonvacuous :
-  let s1 := mkS Fallback AReply 1 DRefused 2 IPierce 3 None in
-  let s2 := mkS Race AReply 1 DOk 2 ICannot 5 None in
-  cancel s1 = None /\ lookup_ends s1 /\ delays_ok s1 /\ ir s1 <> ISendFail /\ out (result s1) = ORet WIndirect /\ at_time (result s1) = Some 6 /\
-  out (result s2) = ORet WDirect /\ at_time (result s2) = Some 3 /\ select_port true 40000 40001 = (40001, true).
-Proof. unfold lookup_ends, delays_ok. cbn. repeat split; try lia; try (right; discriminate); discriminate. Qed.
+  let s1 := mkS Fallback AReply 1 DRefused 2 IPierce 3 None BothDone in
+  let s2 := mkS Race AReply 1 DOk 2 ICannot 5 None BothDone in
+  let s3 := mkS Fallback ANoReply 0 DOk 0 IPierce 4 None BothDone in          (* the former F26 witness *)
+  let s4 := mkS Race AGiven 0 DOk 2 INothing 0 None BothDone in               (* the former F16 witness *)
+  let s5 := mkS Race AGiven 0 DOk 4 IPierce 4 None BothDone in                (* tie, both done *)
+  let s6 := mkS Race AGiven 0 DOk 5 INothing 0 (Some 3) BothDone in           (* the former C11-N1 witness *)
+  cancel s1 = None /\ delays_ok s1 /\ out (result s1) = ORet WIndirect /\ at_time (result s1) = Some 6 /\
+  out (result s2) = ORet WDirect /\ at_time (result s2) = Some 3 /\
+  out (result s3) = ORet WIndirect /\ at_time (result s3) = Some 14 /\
+  out (result s4) = ORet WDirect /\ waiters (result s4) = false /\
+  either (result s5) = true /\ r_open (result s5) = false /\
+  out (result s6) = OCancelled /\ orphans (result s6) = false /\
+  select_port true 40000 40001 = (40001, true).
+Proof. unfold delays_ok. cbn. repeat split; lia. Qed.
